@@ -78,8 +78,29 @@ ASET_CFG['loop_contracts'] = {}
 ASET_CFG['bodies_prelude'] = '#include "aset_prelude.h"\n'
 ASET_CFG['globals'] = {'value_aset::vtype': 'g_vtype_aset', 'value_cst::vtype': 'g_vtype_cst',
                        'dec_constant_dom': '(*(const zw_cdom *)0)'}
-ASET_ROOTS = ['pred_containsp_aset_aset::result', 'pred_overlapsp_aset_aset::result', 'op_overlap_aset_aset::operate',
+ASET_CFG['names'].update({
+    '(anonymous namespace)::addressify': 'w_addressify', 'op_aset_cst_cst::operate': 'w_aset_cst_cst',
+    'op_add_aset_cst::operate': 'w_add_aset_cst', 'op_sub_aset_cst::operate': 'w_sub_aset_cst',
+    'pred_containsp_aset_cst::result': 'w_contains_aset_cst', 'value_aset::cmp': 'value_aset_cmp'})
+ASET_CFG['extern'].update({
+    r'operator<\|bool \(mpz_class, mpz_class\)': 'mpz_lt', r'operator>\|bool \(mpz_class, mpz_class\)': 'mpz_gt',
+    r'operator>=\|bool \(mpz_class, mpz_class\)': 'mpz_ge', r'operator<=\|bool \(mpz_class, mpz_class\)': 'mpz_le',
+    r'operator==\|bool \(mpz_class, mpz_class\)': 'mpz_eq', r'operator!=\|bool \(mpz_class, mpz_class\)': 'mpz_ne',
+    r'operator-\|mpz_class \(mpz_class, mpz_class\)': 'mpz_sub', r'std::swap': 'VERIF_SWAP'})
+ASET_CFG['extern_may_raise'] = ['mpz_sub']
+ASET_CFG['virtual'] = {'zw_cdom::safe_arith': 'cdom_safe_arith_model'}
+ASET_CFG['drop_streams'] = ['std::cerr']
+ASET_CFG['raise'] = []
+ASET_ROOTS = ['(anonymous namespace)::addressify', 'op_aset_cst_cst::operate', 'op_add_aset_cst::operate', 'op_sub_aset_cst::operate',
+              'pred_containsp_aset_cst::result', 'pred_containsp_aset_aset::result', 'pred_overlapsp_aset_aset::result', 'op_overlap_aset_aset::operate',
               'op_length_aset::operate', 'op_add_aset_aset::operate', 'op_sub_aset_aset::operate']
+
+VASET_CFG = copy.deepcopy(ASET_CFG)
+VASET_CFG['names'] = dict(CFG['names'])
+VASET_CFG['names'].update({'value_aset::cmp': 'value_aset_cmp', 'zw_value::get_type': 'va_get_type', 'value_type::operator==': 'va_type_eq',
+                           '_ZN10value_typeC1ERKS_': 'va_type_copy'})
+VASET_CFG['bodies_prelude'] = 'extern value_type g_vtype_aset;\n'
+VASET_ROOTS = ['value_aset::cmp']
 
 INPUTS = ['start', 'length', 'g_x', 'arr[*', 'arr2[*', 'c.__base0.len', 'o.__base0.len']
 
@@ -103,18 +124,27 @@ def jobs(tier):
     for f, n in sizes.items():
         bounded(f, n)
     wsrc = [os.path.join(HERE, 'words.c'), os.path.join(HERE, 'vecmodel.c'), os.path.join(OUT, 'cov_bodies.c'),
-            os.path.join(OUT, 'aset_bodies.c')]
+            os.path.join(OUT, 'aset_bodies.c'), os.path.join(OUT, 'int_bodies.c'),
+            os.path.join(HERE, '..', 'c08', 'prims.c')]
     def word(name, n, **kw):
         kw.setdefault('timeout', 1800)
-        J.append(Job('bounded_word_%s_n%d' % (name, n), wsrc, 'hw_' + name, includes=inc,
-                     inputs=['x', 'arr[*', 'arr2[*', 'a.cov.__base0.len', 'b.cov.__base0.len'],
+        J.append(Job('bounded_word_%s_n%d' % (name, n), wsrc, 'hw_' + name, includes=inc + [os.path.join(HERE, '..', 'c08')],
+                     inputs=['x', 'arr[*', 'arr2[*', 'a.cov.__base0.len', 'b.cov.__base0.len', 'au', 'as', 'bu', 'bs'],
                      defines=['C16_NMAX=%d' % n, 'VEC_NEW_CAP=%d' % (2 * n + 2)], kind='bounded', unwind=2 * n + 3, mem_gb=24,
-                     cbmc_args=['--object-bits', '10'],
+                     cbmc_args=['--object-bits', '12'],
                      note='bounded: at most %d ranges per set, all 64-bit addresses; Zwerg word over the lowered coverage bodies' % n, **kw))
-    wsizes = {'contains': 2, 'overlaps': 2, 'add': 1, 'sub': 1, 'length': 3} if tier == 'quick' else \
-             {'contains': 3, 'overlaps': 3, 'overlap': 1, 'add': 2, 'sub': 2, 'length': 5}
+    wsizes = {'contains': 2, 'overlaps': 2, 'add': 1, 'sub': 1, 'length': 3, 'aset_cst_cst': 1, 'add_cst': 2, 'sub_cst': 2,
+              'contains_cst': 3, 'cmp': 2} if tier == 'quick' else \
+             {'contains': 3, 'overlaps': 3, 'overlap': 1, 'add': 2, 'sub': 2, 'length': 5, 'aset_cst_cst': 1, 'add_cst': 3,
+              'sub_cst': 3, 'contains_cst': 5, 'cmp': 3}
+    csrc = [os.path.join(HERE, 'words_cmp.c'), os.path.join(OUT, 'vaset_bodies.c')]
     for f, n in wsizes.items():
-        word(f, n)
+        if f == 'cmp':
+            J.append(Job('bounded_word_cmp_n%d' % n, csrc, 'hw_cmp', includes=inc, inputs=['x', 'arr[*', 'arr2[*'],
+                         defines=['C16_NMAX=%d' % n], kind='bounded', unwind=2 * n + 3, timeout=1200, cbmc_args=['--object-bits', '10'],
+                         note='bounded: at most %d ranges per set; value_aset::cmp' % n))
+        else:
+            word(f, n)
     ssrc = [os.path.join(HERE, 'harness.c'), os.path.join(HERE, 'vecmodel.c'), os.path.join(OUT, 'cov_bodies.c')]
     def safe(name, harness, enforce, replace=(), lc=False, defines_extra=(), **kw):
         J.append(Job('safe_' + name, ssrc, harness, enforce=enforce, replace=replace, loop_contracts=lc,
@@ -154,7 +184,14 @@ def spec_files():
 
 def prepare(tier):
     lw = vlib.extract('cov', 'libzwerg/coverage.cc', CFG, ROOTS, OUT)
+    import importlib.util
+    sp = importlib.util.spec_from_file_location('c08prop_for_c16', os.path.join(HERE, '..', 'c08', 'prop.py'))
+    c08 = importlib.util.module_from_spec(sp)
+    sp.loader.exec_module(c08)
+    iw = vlib.extract('int', 'libzwerg/int.cc', c08.CFG, c08.ROOTS, OUT)     # bodies of the mpz operators the words call
     aw = vlib.extract('aset', 'libzwerg/builtin-aset.cc', ASET_CFG, ASET_ROOTS, OUT)
+    vw = vlib.extract('vaset', 'libzwerg/value-aset.cc', VASET_CFG, VASET_ROOTS, OUT)
+    aw.report['functions'] += vw.report['functions']
     build_native()
     return {'units': ['libzwerg/coverage.cc', 'libzwerg/builtin-aset.cc'],
             'functions': lw.report['functions'] + aw.report['functions'],
